@@ -358,7 +358,7 @@ func runC05(c *Ctx) {
 			}
 			return fmt.Sprint(idx[0]), nil
 		}}
-	runScenarios(c, rt, sw, rc, wf, big, corpusReadback(c, "corpus construction: FromUnsafeBytes(ToBytes())", "ToBytes"))
+	runScenarios(c, corpusReadback(c, "corpus construction: FromUnsafeBytes(ToBytes())", "ToBytes"), rt, sw, rc, wf, big)
 	c.R.SetExtra("decode_and_sweep_evaluations", atomic.LoadInt64(&evals))
 	c.R.SetExtra("reader_chunking_executions", atomic.LoadInt64(&chunkRuns))
 	c.R.SetExtra("writer_failure_executions", atomic.LoadInt64(&wruns))
